@@ -60,7 +60,7 @@ Lemma valid_case_spec c : valid_case c = true ->
   valid_infos (c_infos c) /\ 0 < c_need c <= max_int /\ 0 <= c_limit c /\ c_strat c <> Other /\
   (forall x, In x (c_infos c) -> f_finite (usage x) = true /\ f_finite (rate x) = true).
 Proof.
-  unfold valid_case. rewrite !andb_true_iff. intros ((((((H1 & H2) & H3) & H4) & H5) & H6) & H7).
+  unfold valid_case. rewrite !andb_true_iff. intros (((((((H1 & H2) & H3) & H4) & H5) & H6) & H7) & _).
   apply nodupb_spec in H1. rewrite forallb_forall in H2.
   split; [split; [exact H1|]|].
   - apply Forall_forall. intros x Hx. specialize (H2 x Hx). unfold valid_info in H2.
